@@ -4,6 +4,8 @@
     "<t>.conn.created" (on the caller's goroutine) and the fake connections. *)
 From Verif Require Import Base.Prelude Gen.Constants Gen.RetryFacts.
 From Verif Require Export Model.Retry.
+From Verif Require Judge.PPool.
+Export Judge.PPool.
 Open Scope N_scope.
 
 (** One observed pass: [p_acq] an exchange was attempted (a connection was
@@ -19,7 +21,8 @@ Inductive case :=
          (conns : N)   (* distinct connections the query was written to *)
          (stale : N)   (* connections whose server side was gone but that the client had not closed when the query
                           started, plus those the scenario kills while it runs *)
-         (must : bool). (* scenario guarantee: every fresh connection works, nobody cancels, the transport stays open *)
+         (must : bool)  (* scenario guarantee: every fresh connection works, nobody cancels, the transport stays open *)
+| KPool (c : Judge.PPool.case).   (* scripted calls on the real PipelineTransport over dummy connections *)
 
 Definition cfg_of (pipeline : bool) : cfg := if pipeline then pipeline_cfg else reuse_cfg.
 
@@ -45,6 +48,7 @@ Definition agree (c : case) : bool :=
     && (conns <=? N.of_nat (length (filter p_written ps)))
     (* the pool never hands out a connection the client has already closed *)
     && forallb (fun p => negb (p_dead p)) ps
+  | KPool x => Judge.PPool.agree x
   end.
 
 Definition n_exch (ps : list opass) : N := N.of_nat (length (filter p_acq ps)).
@@ -68,9 +72,11 @@ Definition spec (c : case) : bool :=
     && (if must && (stale <=? allowed (cfg_of pl)) then fin =? 0 else true)
     (* a failure must not be built on attempts at connections the client already knew were closed *)
     && (if fin =? 1 then negb (existsb p_dead ps) else true)
+  | KPool x => Judge.PPool.spec_c08 x
   end.
 
 Definition nontrivial (c : case) : bool :=
   match c with
   | CRetry _ ps _ _ _ _ _ _ => (2 <=? length ps)%nat || existsb (fun p => negb (p_ok p)) ps
+  | KPool x => Judge.PPool.nontrivial x
   end.
